@@ -15,7 +15,8 @@ Cases
   after the adversary round (notes/adversary_C19.md) also ONE element object on a flow of several values: "mfseq"
   (MakeFilename with a static context), "renderflow" (RenderLaTeX, every value selects its template; several runs with
   edits of the template files), "tocsv" (ToCSV with the options that travel in the value's context), "latexrun" with
-  arbitrary return codes (1, 127, -9, -15), "wmf" with absolute file names;
+  arbitrary return codes (1, 127, -9, -15), "wmf" with absolute file names; after seed round K existing names that are
+  EMPTY strings in "mf"/"mfseq" and "mfw" (a value with existing names through Sequence(MakeFilename, Write), two runs);
 * "hist" cases are *histories*: a list of steps executed in one fresh temporary directory, each step
   first deletes a set of files and then runs a newly built pipeline
 
@@ -107,6 +108,8 @@ THEOREMS = [
     "Lena.C19.latexHandle_rc_nonzero",
     "Lena.C19.latexRun_yields_iff_rc_zero",
     "Lena.C19.write_path_below_outdir",
+    "Lena.C19.mfWritePath_existing",
+    "Lena.C19.mfWritePath_reads_existing",
 ]
 # true by unfolding, refinements between two Lean definitions, Boolean/Prop glue, helper lemmas: audited, not counted
 # as proof obligations of the property
@@ -878,6 +881,57 @@ def _run_stage(case):
             return _write_names(w, case["out"])
         except Exception as e:
             return {"e": exc_name(e)}
+    if op == "mfw":
+        # a value that may already carry (possibly EMPTY) names passes Sequence(MakeFilename(...), Write(out)), twice
+        base = tempfile.mkdtemp(prefix="C19-w-", dir=_tmp_base())
+        try:
+            try:
+                el = _mf(L, case["args"])
+            except Exception as e:
+                return {"e": exc_name(e), "phase": "init"}
+            outdir = os.path.join(base, case["outdir"])
+            runs = []
+            for k in range(2):
+                ctx = {} if case["name"] is None else {"name": case["name"]}
+                o = {k2: v for k2, v in (case["out"] or {}).items() if v is not None}
+                if o:
+                    ctx["output"] = o
+                seq = L["core"].Sequence(el if case.get("reuse") else _mf(L, case["args"]),
+                                         L["output"].Write(outdir, verbose=False))
+                before = {}
+                for root, _, names in os.walk(base):
+                    for nm in names:
+                        q = os.path.join(root, nm)
+                        os.utime(q, ns=(10 ** 18, 10 ** 18))
+                        before[q] = True
+                try:
+                    with warnings.catch_warnings():
+                        warnings.simplefilter("ignore")
+                        res = list(seq.run([("TEXT", ctx)]))
+                except Exception as e:
+                    runs.append({"e": exc_name(e)})
+                    break
+                if len(res) != 1 or not isinstance(res[0], tuple) or not isinstance(res[0][1], dict):
+                    runs.append({"odd": "%d values yielded for one value" % len(res)})
+                    break
+                path, rctx = res[0]
+                ro = rctx.get("output", {})
+                files = {}
+                for root, _, names in os.walk(base):
+                    for nm in names:
+                        q = os.path.join(root, nm)
+                        with open(q) as f:
+                            text = f.read()
+                        files[os.path.relpath(q, base)] = {"ok": text == "TEXT",
+                                                           "w": os.stat(q).st_mtime_ns != 10 ** 18 or q not in before}
+                pre = base + os.sep
+                rel = lambda x: x[len(pre):] if isinstance(x, str) and x.startswith(pre) else x
+                runs.append({"r": [None, ro.get("filename"), ro.get("fileext"), rel(ro.get("filepath"))],
+                             "data": rel(path) if isinstance(path, str) else {"obj": type(path).__name__},
+                             "dirname": ro.get("dirname"), "changed": ro.get("changed"), "files": files})
+            return {"runs": runs}
+        finally:
+            shutil.rmtree(base, ignore_errors=True)
     if op == "winit":
         try:
             return {"mode": _write_mode(L, case["eu"], case["ow"])}
@@ -1220,6 +1274,16 @@ def compare(case, res, replies):
         a = {"r": res["r"][1:], "dir": res.get("dir")}
         b = {"r": m["r"][1:], "dir": m.get("dir")}
         return None if a == b else f"impl {a} vs model {b}"
+    if op == "mfw":
+        # model: wMakeFilename outdir "output" (mfCall ...).1 — file name, extension and path of the first run
+        if "e" in res or (m.get("phase") == "init"):
+            return None if (res.get("e"), res.get("phase")) == (m.get("e"), m.get("phase")) else f"impl {res} vs model {m}"
+        r0 = res["runs"][0]
+        if "e" in r0 or "e" in m:
+            return None if r0.get("e") == m.get("e") else f"impl {r0} vs model {m}"
+        if "odd" in r0:
+            return f"impl {r0}"
+        return None if r0["r"][1:] == m["r"][1:] else f"impl {r0['r'][1:]} vs model {m['r'][1:]}"
     if op == "mfseq":
         if "e" in res or "e" in m:
             return None if (res.get("e"), res.get("phase")) == (m.get("e"), m.get("phase")) else f"impl {res} vs model {m}"
@@ -1346,6 +1410,38 @@ def _oracle_stage(case, res):
         ref = _join(case["outdir"], dn, fn + ("." + fe if fe else ""))
         if res["r"][3] != ref or res["r"][1] != fn or res["r"][2] != fe:
             return f"Write (file name for output {o}) = {res['r'][1:]}, expected path {ref}"
+        return None
+    if op == "mfw":
+        # "MakeFilename never replaces an existing name unless overwrite is set" + "every file named by a yielded value
+        # exists at output_directory/dirname/filename.fileext with exactly the content produced from the current
+        # data" + "a run whose inputs are unchanged rewrites no file": names by the documented rules (existence =
+        # presence of the key), then Write's documented path
+        a = case["args"]
+        if "e" in res:
+            return f"MakeFilename({a}) raised {res}"
+        ref = _ref_make_filename(a, case["name"], case["out"])
+        what = f"Sequence(MakeFilename({a}), Write({case['outdir']!r})) on name={case['name']!r} output={case['out']}"
+        if ref["filename"] == "":
+            bad = [r for r in res["runs"] if r.get("e") != "LenaRuntimeError"]
+            return f"{what}: an empty file name must raise LenaRuntimeError, got {bad[0]}" if bad else None
+        fe = ref["fileext"]
+        if fe is None:
+            fe = ref["filetype"] if ref["filetype"] is not None else "txt"
+        fn = ref["filename"] if ref["filename"] is not None else "output"
+        want = _join(case["outdir"], ref["dirname"] or "", fn + ("." + fe if fe else ""))
+        if len(res["runs"]) != 2:
+            return f"{what}: {res['runs'][-1]}"
+        for k, r in enumerate(res["runs"]):
+            if "e" in r or "odd" in r:
+                return f"{what}: run {k}: {r}"
+            if r["data"] != r["r"][3] or os.path.normpath(r["r"][3] or "") != os.path.normpath(want):
+                return (f"{what}: run {k}: the value names {r['data']!r} (context.output.filepath {r['r'][3]!r}), the naming "
+                        f"rules give {want!r} (existing names are kept: {ref})")
+            nw = os.path.normpath(want)
+            if sorted(r["files"]) != [nw] or not r["files"][nw]["ok"]:
+                return f"{what}: run {k}: files {r['files']}, expected exactly {nw!r} holding the data"
+            if k == 1 and (r["changed"] is True or r["files"][nw]["w"]):
+                return f"{what}: second run with unchanged input: output.changed = {r['changed']!r}, files {r['files']}"
         return None
     if op == "winit":
         if case["eu"] and case["ow"]:
@@ -1882,7 +1978,7 @@ def nontrivial(case, res):
     if "files" in res:
         return any(f["w"] for f in res["files"].values()) or bool(res.get("log"))
     return case["op"] in ("mf", "wmf", "wdir", "uwg", "mgmulti", "render", "render2", "seltpl", "mfseq", "renderflow",
-                          "tocsv") and bool(res)
+                          "tocsv", "mfw") and bool(res)
 
 
 def classify(case, res):
@@ -1994,7 +2090,15 @@ def _stage_cases():
     tpls = [None, ["f"], [None], ["a_", None]]
     outs = [{}, {"filename": "old"}, {"prefix": "P_"}, {"suffix": "_S"}, {"prefix": "P_", "suffix": "_S"},
             {"filename": "old", "prefix": "P_"}, {"prefix": ""}, {"dirname": "d0", "fileext": "e0"},
-            {"filename": "old", "dirname": "d0", "fileext": "e0", "prefix": "P_", "suffix": "_S"}]
+            {"filename": "old", "dirname": "d0", "fileext": "e0", "prefix": "P_", "suffix": "_S"},
+            # names that exist and are EMPTY strings (seed round K): "" is a legitimate fileext (a file without
+            # extension, Write: `if fileext:`), dirname (directly in the output directory), prefix / suffix (nothing
+            # to add); an empty file name exists too (Write refuses it later) — existence is presence of the key,
+            # not truth of the value
+            {"fileext": ""}, {"dirname": ""}, {"filename": ""}, {"suffix": ""},
+            {"filename": "Makefile", "dirname": "", "fileext": ""}, {"dirname": "", "fileext": "e0"},
+            {"dirname": "d0", "fileext": "", "prefix": "", "suffix": "_S"},
+            {"filename": "", "dirname": "", "fileext": "", "prefix": "", "suffix": ""}]
     for fn in tpls:
         for pre in (None, ["x_"], [None, "-"]):
             for suf in (None, ["_y"]):
@@ -2008,6 +2112,25 @@ def _stage_cases():
                             for name in (None, "n"):
                                 for o in (outs[:1] if invalid else outs):
                                     cases.append({"op": "mf", "args": args, "name": name, "out": o})
+    # a value with existing — possibly EMPTY — names through Sequence(MakeFilename, Write), two runs: the file is where the
+    # existing names say (seed round K)
+    mfw_args = [dict(STD_MF), dict(STD_MF, filename=["f"], dirname=["d"], fileext=["csv"]),
+                dict(STD_MF, filename=["f"], dirname=["d"], fileext=["csv"], overwrite=True),
+                dict(STD_MF, filename=None, dirname=["d/", None], fileext=["csv"]),
+                dict(STD_MF, filename=None, prefix=["x_"], fileext=[""])]
+    for args in mfw_args:
+        for name in (None, "n"):
+            for fn in (None, "old", ""):
+                for dn in (None, "", "d0"):
+                    for fe in (None, "", "e0"):
+                        for ft in (None, "csv"):
+                            for pre in (None, "", "P_"):
+                                if pre == "" and ft is None:
+                                    continue
+                                cases.append({"op": "mfw", "args": args, "name": name, "outdir": OUT,
+                                              "reuse": bool(len(cases) % 2),
+                                              "out": {"filename": fn, "dirname": dn, "fileext": fe, "filetype": ft,
+                                                      "prefix": pre}})
     # the file name Write gives a value (observed through Write.run)
     for outdir in ("out", "", "out/", "a/b"):
         for fn in (None, "", "f", "d/f", "/f", "/d/f", "//f"):
@@ -2183,10 +2306,12 @@ def _stage_cases():
                                       "old": {"changed": oldc, "filetype": "csv" if oldc else None}})
     # ONE MakeFilename object names several values, with and without a static context (a Sequence with SetContext)
     seq_vals = [{"name": None, "out": {}}, {"name": "n", "out": {}}, {"name": "m", "out": {}},
-                {"name": None, "out": {"filename": "old"}}, {"name": "n", "out": {"prefix": "P_"}}]
+                {"name": None, "out": {"filename": "old"}}, {"name": "n", "out": {"prefix": "P_"}},
+                {"name": "n", "out": {"filename": "Makefile", "dirname": "", "fileext": ""}}]
     seq_args = [dict(STD_MF), dict(STD_MF, filename=["a_", None]), dict(STD_MF, filename=None, prefix=[None, "-"]),
                 dict(STD_MF, dirname=["d/", None]), dict(STD_MF, overwrite=True),
-                dict(STD_MF, filename=None, suffix=["_", None], fileext=["e"])]
+                dict(STD_MF, filename=None, suffix=["_", None], fileext=["e"]),
+                dict(STD_MF, filename=["f"], dirname=["d"], fileext=["csv"])]
     for args in seq_args:
         for static, static_set in ((None, False), (None, True), ("s", True)):
             for n in (2, 3):
@@ -2649,8 +2774,16 @@ ASSUMPTIONS = [
     "keep none",
     "theorems about freshness assume SourceClosed (every existing pdf has its tex and csv files on disk at the start of "
     "a run); without it the statement is false for the code as it is (history_fresh_full_fails = the known finding)",
+    "seed round K: an 'existing name' is a key that is present in context.output with a string value, the empty string "
+    "included (fileext '' and dirname '' are legitimate: Write treats them as 'no extension' / 'the output directory'); "
+    "keys present with a value that is not a string (None, 0, False) are not generated: whether they 'exist' is not said "
+    "by the statement, and Write reads a None fileext as absent",
 ]
-RULE = ("stage cases (exhaustive small scopes): MakeFilename arguments x name x incoming output (all valid combinations), "
+RULE = ("stage cases (exhaustive small scopes): MakeFilename arguments x name x incoming output (all valid combinations; "
+        "incoming names absent, non-empty and EMPTY strings: fileext '' = no extension, dirname '' = the output directory, "
+        "empty prefix/suffix/filename), Sequence(MakeFilename, Write) run twice on a value with every combination of "
+        "absent/empty/non-empty filename, dirname, fileext, prefix and filetype (op mfw: the file is where the existing names "
+        "say and is not redone), "
         "Write file-name keys x output directories (Write.run on an object that writes itself), Write.run mode x existing file {none, same, different} x incoming "
         "changed {unset, True, False} x data kind, LaTeXToPDF overwrite x changed x tex/pdf presence and mtime order, "
         "PDFToPNG likewise, values without an output context, Write with a formatted output directory and sequences of "
